@@ -43,6 +43,23 @@ func (f *Frame) execStmt(st *State, s ast.Stmt) *State {
 		return st
 	case *ast.AssignStmt:
 		f.execAssign(st, x)
+		// `assert at assign:<lhs> [label] e`: proved right after every assignment whose (single) left-hand side
+		// is written exactly <lhs> (e.g. assign:e.lastRnd) -- the anchor names the state being updated, not a line
+		if f.top && f.contract != nil && len(x.Lhs) == 1 && len(f.contract.Asserts) > 0 {
+			lhs := types.ExprString(x.Lhs[0])
+			for _, a := range f.contract.Asserts {
+				if a.Anchor == "assign:"+lhs {
+					k := f.c.counters["assert:"+a.Clause.Label]
+					f.c.counters["assert:"+a.Clause.Label] = k + 1
+					func() {
+						defer f.specGuard(x, "assert at "+a.Anchor)
+						t := f.specBool(st, a.Clause.Expr, f.loopSpecEnv(st))
+						f.oblige(st, "assert", fmt.Sprintf("%s@%s#%d", a.Clause.Label, lhs, k), t, x.Pos(), a.Clause.Src)
+						st.assume(t)
+					}()
+				}
+			}
+		}
 		return st
 	case *ast.IncDecStmt:
 		op := token.ADD
